@@ -296,4 +296,54 @@ def desugar(d):
     if consumed:
         d["fns"] = [f for f in d["fns"] if not (f["did"] in consumed)]
     d["desugared_closures"] = sorted(consumed)
+    d["threaded_switches"] = sum(thread_const_switches(f["mir"]) for f in d["fns"] if f.get("mir"))
     return n_sites
+
+
+def thread_const_switches(m):
+    """jump threading of materialised booleans: a statement-free block `switch X` whose predecessor ends
+    `X = const v; goto B` is bypassed from that predecessor (`matches!(..)` + `if`, `let ok = a < b; if ok`, drop
+    flags).  Control flow only; no value changes.  A bypassed block that loses all predecessors becomes unreachable."""
+    blocks = m["blocks"]
+    n = 0
+    for bi, B in enumerate(blocks):
+        t = B["t"]
+        if B["s"] or t["k"] != "switch" or bi == 0:
+            continue
+        x = _local_of(t["d"])
+        if x is None:
+            continue
+        preds = []
+        for pi, P in enumerate(blocks):
+            pt = P["t"]
+            tg = []
+            if pt["k"] == "goto":
+                tg = [pt["t"]]
+            elif pt["k"] == "switch":
+                tg = [b for _, b in pt["ts"]] + [pt["else"]]
+            elif pt["k"] in ("call", "drop", "assert", "tailcall"):
+                tg = [pt.get("t")]
+            if bi in tg:
+                preds.append(pi)
+        left = 0
+        for pi in preds:
+            P = blocks[pi]
+            v = None
+            if P["t"]["k"] == "goto" and pi != bi:
+                for st in reversed(P["s"]):
+                    if st.get("k") == "assign" and st.get("p") == x:
+                        a = st.get("r", {}).get("a", {})
+                        if st["r"].get("k") == "use" and a.get("k") == "const" and isinstance(a.get("v"), int):
+                            v = a["v"]
+                        break
+                    if st.get("k") == "assign" and isinstance(st.get("p"), dict) and st["p"].get("l") == x:
+                        break
+            if v is None:
+                left += 1
+                continue
+            tgt = next((b for val, b in t["ts"] if val == v), t["else"])
+            P["t"] = dict(P["t"], t=tgt)
+            n += 1
+        if preds and left == 0:
+            B["t"] = {"k": "unreachable", "ln": t.get("ln", LN)}
+    return n
